@@ -1019,13 +1019,22 @@ End Build.
 
 (* nesting follows the context table (every child allowed in its parent, every root allowed at
    the root) and the MACROs are gone: what the directive layer hands to the catalog builder *)
-Fixpoint placed (fuel : nat) (parent : option N) (d : dir) : bool :=
-  match fuel with
-  | O => false
-  | S fuel' =>
-      negb (N.eqb (d_kind d) DirectiveTables.dir_Macro) &&
+Fixpoint placed (parent : option N) (d : dir) : bool :=
+  match d with
+  | mkDir k _ _ _ _ _ _ _ _ cs =>
+      negb (N.eqb k DirectiveTables.dir_Macro) &&
       (match parent with
-       | None => is_allowed_for_root (d_kind d)
-       | Some p => is_allowed_in p (d_kind d)
-       end) && forallb (placed fuel' (Some (d_kind d))) (d_children d)
+       | None => is_allowed_for_root k
+       | Some p => is_allowed_in p k
+       end) &&
+      (fix go (l : list dir) : bool := match l with [] => true | x :: r => placed (Some k) x && go r end) cs
   end.
+
+(* a tree without MACRO nodes; MACRO directives only at the top level of a scanned forest *)
+Fixpoint nmtree (d : dir) : bool :=
+  match d with
+  | mkDir k _ _ _ _ _ _ _ _ cs =>
+      negb (N.eqb k DirectiveTables.dir_Macro) &&
+      (fix go (l : list dir) : bool := match l with [] => true | x :: r => nmtree x && go r end) cs
+  end.
+Definition macros_on_top (roots : list dir) : bool := forallb (fun r => forallb nmtree (d_children r)) roots.
